@@ -1245,13 +1245,15 @@ class FileStorage(
             gc = self._pack_gc
 
         oldpath = self._file_name + ".old"
-        if os.path.exists(oldpath):
-            os.remove(oldpath)
-        if self.blob_dir and os.path.exists(self.blob_dir + ".old"):
-            remove_committed_dir(self.blob_dir + ".old")
 
         have_commit_lock = False
         try:
+            # (inside the try: a failure here must reset _pack_is_in_progress)
+            if os.path.exists(oldpath):
+                os.remove(oldpath)
+            if self.blob_dir and os.path.exists(self.blob_dir + ".old"):
+                remove_committed_dir(self.blob_dir + ".old")
+
             pack_result = None
             try:
                 pack_result = self.packer(self, referencesf, stop, gc)
